@@ -30,6 +30,8 @@ type c10Msg struct {
 	// Disk: auxiliary files the client rewrites on disk right before it sends this mutator (a watched-files batch after
 	// e.g. a branch switch). The auxiliary files define nothing any query asks about, so answers do not depend on them.
 	Disk map[string]string `json:"disk,omitempty"`
+	// Del: auxiliary files the client deletes on disk right before it sends this mutator
+	Del []string `json:"deleted_on_disk,omitempty"`
 }
 
 type c10In struct {
@@ -138,6 +140,10 @@ func c10GenPhase(r *Rng, nmsg int, noEdits bool) c10Phase {
 		ph.Files[fmt.Sprintf("aux/z%d.lua", i)] = auxText(i, 0)
 	}
 	auxVer := 0
+	var auxAlive []int // small auxiliary files that still exist on disk
+	for i := 0; i < naux-nbig; i++ {
+		auxAlive = append(auxAlive, i)
+	}
 	uri := func(rel string) string { return "file://$ROOT/" + rel }
 	open := map[string]bool{}
 	ver := 1
@@ -193,11 +199,29 @@ func c10GenPhase(r *Rng, nmsg int, noEdits bool) c10Phase {
 					addMut("watched", "workspace/didChangeWatchedFiles", map[string]interface{}{"changes": []interface{}{map[string]interface{}{"uri": uri(rel), "type": 2}}})
 					continue
 				}
+				if len(auxAlive) > 6 && r.Chance(2, 3) {
+					// an auxiliary file is deleted on disk and announced as deleted (often right after a save or a touch that
+					// changed nothing)
+					if open[rel] && r.Bool() {
+						// ... here: the document is saved twice in a row (the second save changes nothing) just before
+						for q := 0; q < 2; q++ {
+							addMut("didSave", "textDocument/didSave", map[string]interface{}{"textDocument": map[string]interface{}{"uri": uri(rel)}, "text": ph.Files[rel]})
+						}
+					}
+					ai := auxAlive[len(auxAlive)-1]
+					auxAlive = auxAlive[:len(auxAlive)-1]
+					arel := fmt.Sprintf("aux/z%d.lua", ai)
+					addMut("watched-deleted", "workspace/didChangeWatchedFiles", map[string]interface{}{"changes": []interface{}{map[string]interface{}{"uri": uri(arel), "type": 3}}})
+					ph.Msgs[len(ph.Msgs)-1].Del = []string{arel}
+					continue
+				}
 				// several files really change on disk and are announced in one notification: pass one runs on a worker pool
 				auxVer++
 				disk := map[string]string{}
 				var chs []interface{}
-				for _, ai := range r.Perm(naux - nbig)[:r.Range(3, 10)] {
+				pa := r.Perm(len(auxAlive))
+				for _, pi := range pa[:min(len(pa), r.Range(3, 10))] {
+					ai := auxAlive[pi]
 					arel := fmt.Sprintf("aux/z%d.lua", ai)
 					disk[arel] = auxText(ai, auxVer)
 					chs = append(chs, map[string]interface{}{"uri": uri(arel), "type": 2})
@@ -288,6 +312,9 @@ func c10Flood(c *Ctx, ph c10Phase, binary, tag string, raceDir string) (obs []c1
 		if m.Mut {
 			for rel, txt := range m.Disk {
 				ws.Write(rel, txt)
+			}
+			for _, rel := range m.Del {
+				ws.Delete(rel)
 			}
 			srv.mu.Lock()
 			clk := srv.clock + 1
@@ -473,6 +500,9 @@ func c10Reference(c *Ctx, ph c10Phase, tag string) (map[string]map[int]string, e
 			k++
 			for rel, txt := range m.Disk {
 				ws.Write(rel, txt)
+			}
+			for _, rel := range m.Del {
+				ws.Delete(rel)
 			}
 			srv.Notify(m.Method, substRoot(m.Params, ws.Root))
 			if err := ask(k); err != nil {
